@@ -28,6 +28,45 @@ PROPS = {
         "assumptions": ["clock readings are non-decreasing", "networks given as CIDR prefixes (ParseCIDR); /31 excluded from the IPDB stream "
                         "(empty managed range; FindIP would call rand.Perm(2^32) — unreachable through server.New)"],
     },
+    "C14": {
+        "level": "The client's acceptance predicate as an iff (verify_passed_iff, accept_iff, nack_iff): a frame is taken as the awaited OFFER/ACK "
+                 "exactly when every conjunct of the property holds; every other packet is ignored without effect; the receive path never indexes out "
+                 "of range — Lean theorems over all byte strings / decoded messages. Tied to the code by running the real catchReply + verifiers on the "
+                 "virtual segment over every combination of violated conjuncts x 4 waiting states, plus mutated frames.",
+        "props": ["C14"],
+        "streams": [{"test": "TestCliCatch", "names": ["clicatch"], "timeout": 600}],
+        "rule": "all 2^11 combinations of violated conjuncts (quick: all singles and pairs + 1/8 of the rest; thorough: all) x {offer, selecting, renewing, "
+                "rebinding}, each violation drawn from its variants (absent / zero / broadcast / wrong length / wrong value), lease boundaries 59/60/61 s, "
+                "NAKs for this and another host, structure-aware mutations of a valid reply; non-trivial = not ignored",
+        "trusted": ["vnet receive socket fake; testing/synctest for goroutine quiescence"],
+        "assumptions": ["a NAK aborts in the three ACK-waiting states; while waiting for an OFFER it is 'not the expected type' and ignored (as coded)"],
+    },
+    "C16": {
+        "level": "Each of the four client message templates read back with the stack's decoders has exactly the source/destination/ciaddr/option "
+                 "pattern of its state, ports 68->67, valid checksums, hardware address, derived client identifier (template_wire); retransmission "
+                 "spacing >= 700 ms and non-decreasing for every random stream (retransmit_delays) — Lean theorems; byte-exact correspondence with "
+                 "msgtmpl and observed schedules of the real sendMessage under a virtual clock.",
+        "props": ["C16"],
+        "streams": [{"test": "TestCliTmpl", "names": ["clitmpl"], "timeout": 600}],
+        "rule": "random hardware addresses (1..16 bytes), offered/server addresses incl. 0.0.0.0 and broadcast, all four states, two transmissions per "
+                "exchange; real sendMessage runs of 10 s .. 45 min virtual time whose inter-frame gaps are checked against the model's admissible "
+                "successor (prev <= next <= 2*prev below the barrier); non-trivial = every case",
+        "trusted": ["math/rand (observed, never predicted)", "virtual clock of testing/synctest: real timer accuracy is not exhibited"],
+        "partial": "Timing clause partial: spacing is shown on the model and observed under a virtual clock; real timer accuracy cannot be exhibited.",
+    },
+    "C17": {
+        "level": "Every PSA_DHCPC_* value consists of [A-Za-z0-9,._-] for all inputs (env_value_safe / env_entries_safe, over Go's rune segmentation of "
+                 "arbitrary bytes), the generated resolv.conf obeys the header/search/nameserver grammar for every environment (resolv_grammar), untouched "
+                 "iff no valid name server — Lean theorems; correspondence with envEntry/dumpScriptConf, a real child process through Cbhandler and the "
+                 "real psa-dhcpc -syshook binary in a chroot.",
+        "props": ["C17"],
+        "streams": [{"test": "TestCliSan", "names": ["clisan"], "timeout": 900}],
+        "rule": "domain payloads: every byte value at start/middle/end, newline/=/NUL/space/shell metacharacters, invalid and edge-case UTF-8, 255 random "
+                "bytes; interface configurations with 0..63 DNS servers, nil router/netmask, extreme MTU/lease; hostile raw environments for the "
+                "chroot binary; non-trivial = non-empty value / file written",
+        "trusted": ["regexp and unicode/utf8 (re-implemented in the model as character classes + rune segmentation, compared on every case)",
+                    "net.IP.String / IPMask.String / Sprintf(%d)", "os/exec (drops duplicate environment keys)", "chroot(2) as root in the sandbox"],
+    },
     "C12": {
         "level": "DHCP codec: decode(assemble m) = m for every representable message, acceptance of arbitrary bytes iff the RFC 2131 layout + RFC 2132 "
                  "option-area grammar, typed accessors exact, no out-of-range access — Lean theorems over all byte strings/messages; tied to the Go "
